@@ -158,3 +158,4 @@ REGISTRY["C09"] = store_engine.c09
 REGISTRY["C18"] = domain.c18
 REGISTRY["C19"] = domain.c19
 REGISTRY["C20"] = domain.c20
+REGISTRY["C13"] = domain.c13
